@@ -33,6 +33,7 @@ var c03Vocab = []c03Tok{
 	{1, "&", false}, {1, "&&", false}, {1, "(", false}, {1, ")", false}, {1, ";", false}, {1, ";;", false}, {1, "|", false}, {1, "||", false},
 	{1, "<", false}, {1, ">", false}, {1, ">>", false}, {1, "<&", false}, {1, ">|", false},
 	{2, "\n", false},
+	{5, "$(", false}, {6, "`", false},
 }
 
 // c03Render joins tokens with single blanks (IO numbers glued to their operator).
@@ -66,6 +67,21 @@ func c03Exec(c *core.Ctx, cs c03Case) {
 		rt = append(rt, recog.Tok{K: recog.Kind(t.K), Text: t.Text, Plain: t.Plain})
 	}
 	verdict, _ := recog.Recognise(rt)
+	// a backquote token regroups the text of words that contain a backquote or a
+	// backslash themselves (the backquoted text is unescaped before it is parsed):
+	// the token reading is not the lexer's any more
+	hasBQ, fragile := false, false
+	for _, t := range cs.Toks {
+		switch recog.Kind(t.K) {
+		case recog.BQ:
+			hasBQ = true
+		case recog.Word, recog.Arith:
+			fragile = fragile || strings.ContainsAny(t.Text, "`\\")
+		}
+	}
+	if hasBQ && fragile {
+		verdict = recog.Unsure
+	}
 	src, starts := c03Render(cs.Toks)
 	if cs.Tail != "" {
 		// the tokens form a valid command without its final newline; the tail opens a
@@ -210,7 +226,7 @@ func c03Normalise(ts []c03Tok) []c03Tok {
 	return out
 }
 
-var c03Damage = []c03Tok{{1, ")", false}, {0, "}", true}, {0, "fi", true}, {0, "done", true}, {0, "esac", true}, {0, "then", true}, {0, "do", true}, {1, ";;", false}, {1, "|", false}, {1, "&&", false}, {1, "(", false}, {0, "{", true}}
+var c03Damage = []c03Tok{{1, ")", false}, {0, "}", true}, {0, "fi", true}, {0, "done", true}, {0, "esac", true}, {0, "then", true}, {0, "do", true}, {1, ";;", false}, {1, "|", false}, {1, "&&", false}, {1, "(", false}, {0, "{", true}, {5, "$(", false}, {6, "`", false}}
 
 func c03Gen(c *core.Ctx) {
 	// 1. exhaustive token strings
@@ -229,6 +245,32 @@ func c03Gen(c *core.Ctx) {
 			for k >= 0 {
 				idx[k]++
 				if idx[k] < len(c03Vocab) {
+					break
+				}
+				idx[k] = 0
+				k--
+			}
+			if k < 0 {
+				break
+			}
+		}
+	}
+	// 1a. nesting: every string of <=6 (thorough <=7) tokens over the bracketing sub-vocabulary
+	nest := []c03Tok{{0, "a", true}, {1, "(", false}, {1, ")", false}, {5, "$(", false}, {6, "`", false}, {1, ";", false}, {0, "{", true}, {0, "}", true}, {2, "\n", false}}
+	for n, maxN := 5, c.Pick(6, 7); n <= maxN; n++ {
+		idx := make([]int, n)
+		for {
+			if c.Mine() {
+				cs := c03Case{Kind: "nesting-token-string"}
+				for _, k := range idx {
+					cs.Toks = append(cs.Toks, nest[k])
+				}
+				core.Run(c, cs, c03Exec)
+			}
+			k := n - 1
+			for k >= 0 {
+				idx[k]++
+				if idx[k] < len(nest) {
 					break
 				}
 				idx[k] = 0
@@ -334,7 +376,7 @@ func init() {
 		ID:          "C03",
 		Level:       "exploration",
 		Technique:   "runtime monitoring: differential oracle (independent recursive-descent recogniser on token sequences) for accept/reject, plus an intrinsic check of the returned parser.Error (type, Name, position at a token / construct start inside the source)",
-		Rule:        "a case is a token sequence rendered with single blanks: every string of <=4 tokens over a 33-token vocabulary (word, assignment word, number word, the 16 reserved words, 13 operators, newline) — thorough adds a 3e6 sample of length 5-7 — and, for 1500 (thorough 40000) generated programs without here-documents: the program itself, every single-token deletion, duplication, adjacent swap, truncation at every token boundary, and two damage tokens (of ) } fi done esac then do ;; | && ( {) inserted at every boundary. The recogniser classifies the first complete command valid / invalid / incomplete / unsure (skipped). distinct_nontrivial = distinct (mutation kind, error message) pairs observed.",
+		Rule:        "a case is a token sequence rendered with single blanks: every string of <=4 tokens over a 35-token vocabulary (word, assignment word, number word, the 16 reserved words, 13 operators, newline, \"$(\" and a backquote as tokens of their own), every string of 5-6 (thorough 5-7) tokens over the 9-token bracketing sub-vocabulary (a ( ) $( ` ; { } newline) — thorough adds a 3e6 sample of length 5-7 — and, for 1500 (thorough 40000) generated programs without here-documents: the program itself, every single-token deletion, duplication, adjacent swap, truncation at every token boundary, and two damage tokens (of ) } fi done esac then do ;; | && ( {) inserted at every boundary. The recogniser classifies the first complete command valid / invalid / incomplete / unsure (skipped). distinct_nontrivial = distinct (mutation kind, error message) pairs observed.",
 		Assumptions: []string{"the recogniser follows XCU 2.10.2 with go.sh's pinned dialect; a reserved word directly after a redirection of a compound command, and here-document operators, are 'unsure' and skipped", "the message text is not judged"},
 		Gen:         c03Gen,
 		Replay:      func(c *core.Ctx, raw []byte) { core.ReplayOne(c, raw, c03Exec) },
